@@ -45,9 +45,14 @@ func runC08(c *core.Ctx) {
 		// metadata selector truth table (shared with C06-D5)
 		pc := &core.PredCompiler{P: c.P}
 		f := c.Fn(metap + ".(*RetentionPolicyInfo).ShardGroupByTimestamp")
-		conds := ifConds(f)
-		c.Need(len(conds) == 1, "selector condition of ShardGroupByTimestamp")
-		impl, err := pc.CompileIn(f, conds[0])
+		// the condition under which a group is returned, as a path condition (guard clauses = nested ifs)
+		impl, err := pc.PathCondition(f, func(e *core.Event) bool {
+			if e.Kind != core.EvReturn {
+				return false
+			}
+			rs, ok := e.Node.(*ast.ReturnStmt)
+			return ok && len(rs.Results) == 1 && !isNilExpr(f.Info(), rs.Results[0])
+		}, nil)
 		if err != nil {
 			c.Check("selector-truth-table", f.Name, f.PosStr(), false, "undecided: "+err.Error())
 		} else {
@@ -137,7 +142,8 @@ func runC08(c *core.Ctx) {
 		mod := false
 		ast.Inspect(sf.Body, func(nd ast.Node) bool {
 			if be, ok := nd.(*ast.BinaryExpr); ok && be.Op == token.REM {
-				if strings.Contains(core.ExprStr(be.X), "HashID()") && strings.Contains(core.ExprStr(be.Y), "len(") {
+				// operands may be hoisted into locals (n := uint64(len(sgi.Shards)))
+				if strings.Contains(core.ExprStr(derefLocal(sf, be.X)), "HashID()") && strings.Contains(core.ExprStr(derefLocal(sf, be.Y)), "len(") {
 					mod = true
 				}
 			}
